@@ -165,7 +165,7 @@ def pixel_case(ctx, rng, k):
         step = 8 if res == "gac" else 40
         cols = [c0 + step * j for j in range(51) if j != bad_tie]
         dt = d[bad_line, cols]
-        lim_t = 1e-4 if fam == "klm" else 0.012
+        lim_t = 2.5e-4 if fam == "klm" else 0.012      # the stored words are quantised to 1e-4 deg (KLM) / 1/128 deg (POD)
         if np.isnan(dt).any() or float(np.max(dt)) > lim_t:
             j = int(np.nanargmax(np.where(np.isnan(dt), np.inf, dt)))
             ctx.violation("%s: line %d carries one out-of-range earth-location word (tie point %d); its valid tie point at column %d "
